@@ -435,6 +435,21 @@ Theorem C08_unitary_identity : forall (K : Type) (k0 k1 : K) (kadd kmul ksub : K
 Proof. exact unitary_identity_b. Qed.
 Print Assumptions C08_unitary_identity.
 
+(* TT-SVD and the middle cores of TR-SVD on real or complex data: the core reshaped from U[:, :r] (U with unitary columns) is left-unitary;
+   TR-SVD first core: its mode unfolding has unitary columns *)
+Theorem C08_tt_core_left_unitary : forall (K : Type) (k0 k1 : K) (kadd kmul ksub : K -> K -> K) (kopp : K -> K),
+  ring_theory k0 k1 kadd kmul ksub kopp eq -> forall (conj : K -> K) rk I k r U, unitary_cols K k0 k1 kadd kmul conj (rk * I) k U -> r <= k ->
+  forall b b', b < r -> b' < r ->
+  bigsum K k0 kadd rk (fun a => bigsum K k0 kadd I (fun i => kmul (conj (kcore_of K I U a i b)) (kcore_of K I U a i b'))) = kdelta K k0 k1 b b'.
+Proof. exact tt_core_left_unitary. Qed.
+Print Assumptions C08_tt_core_left_unitary.
+Theorem C08_tr_first_core_unitary : forall (K : Type) (k0 k1 : K) (kadd kmul ksub : K -> K -> K) (kopp : K -> K),
+  ring_theory k0 k1 kadd kmul ksub kopp eq -> forall (conj : K -> K) I r0 r1 U, unitary_cols K k0 k1 kadd kmul conj I (r0 * r1) U ->
+  forall a b a' b', a < r0 -> b < r1 -> a' < r0 -> b' < r1 ->
+  bigsum K k0 kadd I (fun i => kmul (conj (ktr_first_core K r1 U a i b)) (ktr_first_core K r1 U a' i b')) = kmul (kdelta K k0 k1 a a') (kdelta K k0 k1 b b').
+Proof. exact tr_first_core_unitary. Qed.
+Print Assumptions C08_tr_first_core_unitary.
+
 (* for factors with unitary columns the projection is a LEFT INVERSE of the reconstruction: a core is recovered from the tensor it
    represents by X x_k U_k^H -- so "core = projection of the data onto the factors" determines the core (every order) *)
 Theorem C08_tucker_core_left_inverse : forall (K : Type) (k0 k1 : K) (kadd kmul ksub : K -> K -> K) (kopp : K -> K),
@@ -484,15 +499,18 @@ Proof. exact (conj R_is_conj (conj Cx_ring (conj Cx_is_conj cxi_facts))). Qed.
 Example C08_unitary_complex_ex : unitary_all Cx cx0 cx1 cxadd cxmul cxconj [2] [1] [Uex] /\
   bigsum Cx cx0 cxadd 2 (fun i => cxmul (Uex i 0) (Uex i 0)) <> cx1.
 Proof. exact (conj Uex_unitary Uex_not_bilinear_orthonormal). Qed.
-(* KNOWN FINDING (symeig_svd on complex input; candidate repair build/fix_candidates/C08_symeig_svd_complex.diff): the code hands M M^T
-   (plain transpose) to eigh instead of the Gram matrix M M^H, so the SVD contract assumed above is not met by svd='symeig_svd' on
-   complex data.  Witness: M = (1, i) has M M^T = 0 and M M^H = 2.  What holds: for matrices with real entries the two coincide. *)
-Theorem C08_symeig_gram_refuted : exists M : nat -> nat -> Cx, gramT 2 M 0 0 = cx0 /\ gramH 2 M 0 0 = (2%R, 0%R).
-Proof. exact symeig_gram_refuted. Qed.
-Print Assumptions C08_symeig_gram_refuted.
-Theorem C08_symeig_gram_real_partial : forall n (M : nat -> nat -> Cx), (forall a j, snd (M a j) = 0%R) -> forall a b, gramT n M a b = gramH n M a b.
-Proof. exact symeig_gram_real. Qed.
-Print Assumptions C08_symeig_gram_real_partial.
+(* symeig_svd (after d995974): the matrix handed to eigh is the Gram matrix M M^H, which is Hermitian for EVERY M over a ring with
+   conjugation (eigh's precondition; the eigen-decomposition itself is LAPACK's and not modelled) *)
+Theorem C08_symeig_gram_hermitian : forall (K : Type) (k0 k1 : K) (kadd kmul ksub : K -> K -> K) (kopp : K -> K),
+  ring_theory k0 k1 kadd kmul ksub kopp eq -> forall conj, is_conj kadd kmul conj -> forall n (M : nat -> nat -> K) a b,
+  bigsum K k0 kadd n (fun j => kmul (M a j) (conj (M b j))) = conj (bigsum K k0 kadd n (fun j => kmul (M b j) (conj (M a j)))).
+Proof. exact gram_hermitian_b. Qed.
+Print Assumptions C08_symeig_gram_hermitian.
+(* regression witness: before d995974 the code formed M M^T with the PLAIN transpose; for M = (1, i) that matrix is 0 while M M^H = 2
+   (for real entries the two coincide) -- tucker / partial_tucker(init='svd', svd='symeig_svd', n_iter_max=0) returned non-orthonormal factors *)
+Example C08_before_d995974_symeig_gram_ex : (exists M : nat -> nat -> Cx, gramT 2 M 0 0 = cx0 /\ gramH 2 M 0 0 = (2%R, 0%R)) /\
+  (forall n (M : nat -> nat -> Cx), (forall a j, snd (M a j) = 0%R) -> forall a b, gramT n M a b = gramH n M a b).
+Proof. exact (conj symeig_gram_refuted symeig_gram_real). Qed.
 Example C08_unitary_real_ex : unitary_all R 0%R 1%R Rplus Rmult (fun x => x) [2] [1] [Urex].
 Proof. exact Urex_unitary. Qed.
 
@@ -542,6 +560,29 @@ Theorem C08_tucker_all_fixed_returns_init : forall (St : Type) (svd_init impute 
   tucker_fixed_run St svd_init impute project recon update absorb_fixed project_fixed n_modes n_fixed mask tol_set n decisions s0 = s0.
 Proof. exact tucker_all_fixed. Qed.
 Print Assumptions C08_tucker_all_fixed_returns_init.
+(* ---- the loop of partial_tucker as data.  The harness translates the CURRENT source of the loop (ast) into a list of statement kinds and
+   Coq evaluates prog_ok on it on every run; the contract is proved for EVERY program satisfying prog_ok (the core is clean at every exit of
+   the body: no break and no end of body between a factor sweep / imputation and the next full projection), and the hand-written skeleton is
+   the program hooi_prog.  Example C08_prog_ok_ex: programs failing prog_ok with an un-projected run. *)
+Theorem C08_prog_run_core_projected : forall (St : Type) (svd_init impute project recon : St -> St) (update : nat -> St -> St) (CoreProj : St -> Prop),
+  (forall s, CoreProj (project s)) -> (forall s, CoreProj s -> CoreProj (recon s)) ->
+  forall p ik k mask tol_set n decisions s0, prog_ok p = true -> ik = InitSvd \/ 0 < n ->
+  CoreProj (prog_run St svd_init impute project recon update p ik k mask tol_set n decisions s0).
+Proof. exact prog_run_core_projected. Qed.
+Print Assumptions C08_prog_run_core_projected.
+Theorem C08_hooi_is_prog : forall (St : Type) (svd_init impute project recon : St -> St) (update : nat -> St -> St) ik k mask tol_set n decisions s0,
+  hooi_run St svd_init impute project recon update ik k mask tol_set n decisions s0 =
+  prog_run St svd_init impute project recon update hooi_prog ik k mask tol_set n decisions s0.
+Proof. exact hooi_run_is_prog. Qed.
+Print Assumptions C08_hooi_is_prog.
+Example C08_prog_ok_ex : prog_ok hooi_prog = true /\
+  prog_ok (mkHprog true [SImpute; SProject; SSweep; SRecon; SBreakTest 2 true]) = false /\
+  ghost_prog (mkHprog true [SImpute; SProject; SSweep; SRecon; SBreakTest 2 true]) InitSvd 1 [] = false /\
+  prog_ok (mkHprog true [SImpute; SSweep; SBreakTest 2 true; SProject; SRecon]) = false /\
+  ghost_prog (mkHprog true [SImpute; SSweep; SBreakTest 2 true; SProject; SRecon]) InitSvd 3 [false; false; true] = false /\
+  prog_ok (mkHprog false [SImpute; SSweep; SProject; SRecon; SBreakTest 2 true]) = false /\
+  ghost_prog (mkHprog false [SImpute; SSweep; SProject; SRecon; SBreakTest 2 true]) InitSvd 0 [] = false.
+Proof. exact prog_ok_examples. Qed.
 (* the instance compared with the implementation on every run (call log of svd_interface / multi_mode_dot) *)
 Theorem C08_hooi_trace_ends_projected : forall ik k mask tol_set n decisions, ik = InitSvd \/ 0 < n ->
   ends_projected (hooi_trace ik k mask tol_set n decisions) = true.
